@@ -189,6 +189,13 @@ def library_verdict(text: str) -> bool:
 
 
 DAMAGES = ["{", "}", "{ a = ; }", "{ a = 1 }", "let x = 1; in", "[ 1 2", "\"open", "{ a = 1; } }", "= 1;"]
+EXOTIC = [
+    "http://example.org/x.tar.gz", "x:y", "<nixpkgs>", "<nixpkgs/lib>", "~/x.nix", "let { body = 1; }", "1.5e3", ".5", "a.${b}", "\"${a}\".b",
+    "{ ${a} = 1; }", "{ \"${a}\" = 1; }", "a ? b.c", "a.b or c", "a: b: c", "{ a, ... } @ args: a", "args @ { a ? 1 }: a", "''\n  ''${x} '''\n''",
+    "\"\\${x}\"", "1 - -1", "a -> b", "!a && -b < 3", "./a/${b}/c", "import ./x.nix { }", "builtins.foo or null", "e: e.x", "/abs/path", "a.\"b c\".d",
+    "[ ]", "{ }", "rec { }", "assert a; b", "with a; b", "if a then b else c", "(a)", "a // b", "a ++ b", "x: { }", "{ inherit a; inherit (b) c d; }", "__curPos",
+    "{ a.b.c = 1; a.b.d = 2; }", "f { } { }", "1 + 2 * 3", "[ (f x) ]", "''a''", "\"\"",
+]
 
 
 def gen_text(st: Streams, tier: str, seed: int):
@@ -227,6 +234,18 @@ def gen_text(st: Streams, tier: str, seed: int):
     elif r < 0.58:
         kind = "crlf"
         doc = doc.replace("\n", "\r\n")
+    elif r < 0.66:
+        # valid syntax off the beaten track (some of it the library does not represent at all):
+        # whatever the library does with it, the command line must report exactly that
+        kind = "exotic"
+        e = rng.choice(EXOTIC)
+        form = rng.random()
+        if form < 0.4:
+            doc = e + "\n"
+        elif form < 0.8:
+            doc = "{\n  a = %s;\n  b = 2;\n}\n" % e
+        else:
+            doc = "x:%s\n{\n}%s" % (rng.choice(["''", "y", "//h"]), rng.choice(["", "\n"]))
     if kind == "canonical":
         tail = rng.random()
         if tail < 0.1:
